@@ -6,6 +6,7 @@
      T5 header_unrepaired_refuted
    No axioms; stdlib only. *)
 From Coq Require Import List Bool Arith NArith Lia.
+From Coq Require String.
 From J2M.Model Require Import Base Emit PyLex.
 Import ListNotations.
 Local Open Scope list_scope.
@@ -231,3 +232,287 @@ Qed.
    (like Python) rejects the escape \U00110000 *)
 Example repr_out_of_range : py_unescape (py_repr (fun _ => false) [1114112%N]) = None.
 Proof. vm_compute. reflexivity. Qed.
+
+(* ================================================================================================================ *)
+(* raw triple-quoted literals                                                                                       *)
+(* ================================================================================================================ *)
+Definition lift_raw (z : str) (o : option (str * str)) : option (str * str) :=
+  match o with Some (b, t) => Some (z ++ b, t) | None => None end.
+
+(* z is "transparent": scanning z ++ y from the normal state never ends the literal inside z and reaches y in the
+   normal state, whatever y is *)
+Definition transparent (z : str) : Prop :=
+  forall y, py_raw_triple_end (z ++ y) = lift_raw z (py_raw_triple_end y).
+
+Lemma transparent_nil : transparent [].
+Proof. intros y. cbn [app]. destruct (py_raw_triple_end y) as [[b t] |]; reflexivity. Qed.
+
+Lemma transparent_app : forall a b, transparent a -> transparent b -> transparent (a ++ b).
+Proof.
+  intros a b Ha Hb y. rewrite <- app_assoc, Ha, Hb.
+  destruct (py_raw_triple_end y) as [[b0 t] |]; cbn [lift_raw]; [rewrite app_assoc |]; reflexivity.
+Qed.
+
+Lemma raw_bsl : forall e r, py_raw_triple_end (92%N :: e :: r) = lift_raw [92%N; e] (py_raw_triple_end r).
+Proof. intros. cbn [py_raw_triple_end]. change (N.eqb 92 92) with true. cbn iota. reflexivity. Qed.
+
+Lemma raw_other : forall c r, N.eqb c 92 = false -> starts_triple (c :: r) = false ->
+  py_raw_triple_end (c :: r) = lift_raw [c] (py_raw_triple_end r).
+Proof. intros c r H1 H2. cbn [py_raw_triple_end]. rewrite H1, H2. reflexivity. Qed.
+
+Lemma raw_end : forall r, py_raw_triple_end (34%N :: 34%N :: 34%N :: r) = Some ([], r).
+Proof. reflexivity. Qed.
+
+Lemma lift_raw_cons2 : forall a b z o, lift_raw [a; b] (lift_raw z o) = lift_raw (a :: b :: z) o.
+Proof. intros. destruct o as [[x t] |]; reflexivity. Qed.
+Lemma lift_raw_cons1 : forall a z o, lift_raw [a] (lift_raw z o) = lift_raw (a :: z) o.
+Proof. intros. destruct o as [[x t] |]; reflexivity. Qed.
+
+(* ---- starts_triple facts ---- *)
+Lemma st_head : forall a l, a <> 34%N -> starts_triple (a :: l) = false.
+Proof. intros a l H. destruct l as [| b [| c l]]; cbn; try reflexivity. rewrite (neqb _ _ H). reflexivity. Qed.
+Lemma st_second : forall a b l, b <> 34%N -> starts_triple (a :: b :: l) = false.
+Proof. intros a b l H. destruct l as [| c l]; cbn; try reflexivity. rewrite (neqb _ _ H), andb_false_r. reflexivity. Qed.
+Lemma st_third : forall a b c l, c <> 34%N -> starts_triple (a :: b :: c :: l) = false.
+Proof. intros a b c l H. cbn. rewrite (neqb _ _ H), andb_false_r. reflexivity. Qed.
+Lemma st_true : forall s, starts_triple s = true -> exists r, s = 34%N :: 34%N :: 34%N :: r.
+Proof.
+  intros s H. destruct s as [| a [| b [| c r]]]; try discriminate. cbn in H.
+  apply andb_prop in H. destruct H as [H H3]. apply andb_prop in H. destruct H as [H1 H2].
+  apply N.eqb_eq in H1, H2, H3. subst. exists r. reflexivity.
+Qed.
+(* a separator d other than the quote after x: the lookahead at the head of x does not change *)
+Lemma st_sep : forall x d y, starts_triple x = false -> d <> 34%N -> starts_triple ((x ++ [d]) ++ y) = false.
+Proof.
+  intros x d y H Hd. destruct x as [| a [| b [| c x]]]; cbn [app].
+  - apply st_head. exact Hd.
+  - apply st_second. exact Hd.
+  - apply st_third. exact Hd.
+  - exact H.
+Qed.
+
+Lemma has_triple_tail : forall a r, has_triple (a :: r) = false -> starts_triple (a :: r) = false /\ has_triple r = false.
+Proof. intros a r H. cbn [has_triple] in H. apply orb_false_elim in H. exact H. Qed.
+
+(* ---- A: a text without three consecutive quotes, followed by a separator, is transparent ---- *)
+Lemma no_triple_transparent_n : forall n x d, List.length x <= n ->
+  has_triple x = false -> d <> 34%N -> d <> 92%N -> transparent (x ++ [d]).
+Proof.
+  induction n as [| n IH]; intros x d Hn Hx Hd Hb y.
+  - destruct x; [| cbn in Hn; lia]. cbn [app].
+    rewrite raw_other; [| apply neqb; exact Hb | apply st_head; exact Hd]. reflexivity.
+  - destruct x as [| c r].
+    + cbn [app]. rewrite raw_other; [| apply neqb; exact Hb | apply st_head; exact Hd]. reflexivity.
+    + cbn [List.length] in Hn. apply has_triple_tail in Hx. destruct Hx as [Hst Hr].
+      destruct (N.eqb_spec c 92) as [-> | Nc].
+      * destruct r as [| e r1].
+        { cbn [app]. rewrite raw_bsl. reflexivity. }
+        apply has_triple_tail in Hr. destruct Hr as [_ Hr1]. cbn [List.length] in Hn.
+        cbn [app]. rewrite raw_bsl.
+        rewrite (IH r1 d); [| lia | exact Hr1 | exact Hd | exact Hb].
+        rewrite lift_raw_cons2. reflexivity.
+      * change ((c :: r) ++ [d]) with (c :: (r ++ [d])). change ((c :: r ++ [d]) ++ y) with (c :: (r ++ [d]) ++ y).
+        rewrite raw_other; [| apply neqb; exact Nc | ].
+        2:{ change (c :: (r ++ [d]) ++ y) with (((c :: r) ++ [d]) ++ y). apply st_sep; assumption. }
+        rewrite (IH r d); [| lia | exact Hr | exact Hd | exact Hb].
+        rewrite lift_raw_cons1. reflexivity.
+Qed.
+
+Lemma no_triple_transparent : forall x d,
+  has_triple x = false -> d <> 34%N -> d <> 92%N -> transparent (x ++ [d]).
+Proof. intros x d. apply (no_triple_transparent_n (List.length x)). apply le_n. Qed.
+
+Lemma transparent_sep : forall d, d <> 34%N -> d <> 92%N -> transparent [d].
+Proof. intros d Hd Hb. apply (no_triple_transparent [] d); [reflexivity | exact Hd | exact Hb]. Qed.
+
+Lemma lift_raw_app : forall a b o, lift_raw a (lift_raw b o) = lift_raw (a ++ b) o.
+Proof. intros a b o. destruct o as [[x t] |]; cbn [lift_raw]; [rewrite app_assoc |]; reflexivity. Qed.
+
+(* ---- replace_triple: unfolding equations ---- *)
+Lemma rt_triple : forall r,
+  replace_triple (34%N :: 34%N :: 34%N :: r) = 34%N :: 34%N :: 92%N :: 34%N :: replace_triple r.
+Proof. reflexivity. Qed.
+Lemma rt_other : forall a r, starts_triple (a :: r) = false -> replace_triple (a :: r) = a :: replace_triple r.
+Proof.
+  intros a r H. destruct r as [| b [| c r2]]; try reflexivity.
+  change (replace_triple (a :: b :: c :: r2))
+    with (if N.eqb a 34 && N.eqb b 34 && N.eqb c 34
+          then 34%N :: 34%N :: 92%N :: 34%N :: replace_triple r2 else a :: replace_triple (b :: c :: r2)).
+  cbn [starts_triple] in H. rewrite H. reflexivity.
+Qed.
+
+(* the naive form of T3 is FALSE: the output of the replacement may well contain three consecutive quotes (five quotes
+   become  DQ DQ BSL DQ DQ DQ); what matters is that the first of them is escaped for the raw-string scanner *)
+Example replace_triple_has_triple : has_triple (replace_triple [34; 34; 34; 34; 34]%N) = true.
+Proof. vm_compute. reflexivity. Qed.
+
+(* after a character c that does not start a triple in the input, the scanner's lookahead at c in the output is
+   negative as well *)
+Lemma st_replace : forall c r d y, starts_triple (c :: r) = false -> d <> 34%N ->
+  starts_triple (c :: (replace_triple r ++ [d]) ++ y) = false.
+Proof.
+  intros c r d y H Hd.
+  destruct (N.eq_dec c 34) as [-> | Nc]; [| apply st_head; exact Nc].
+  destruct r as [| x r'].
+  - cbn [replace_triple app]. apply st_second. exact Hd.
+  - destruct (N.eq_dec x 34) as [-> | Nx].
+    + destruct r' as [| z r''].
+      * cbn [replace_triple app]. apply st_third. exact Hd.
+      * assert (Nz : z <> 34%N).
+        { cbn in H. apply N.eqb_neq. exact H. }
+        rewrite (rt_other 34 (z :: r'')) by (apply st_second; exact Nz).
+        rewrite (rt_other z r'') by (apply st_head; exact Nz).
+        cbn [app]. apply st_third. exact Nz.
+    + rewrite (rt_other x r') by (apply st_head; exact Nx). cbn [app]. apply st_second. exact Nx.
+Qed.
+
+(* ---- B = T3: the repaired command text, followed by a separator, is transparent ---- *)
+Lemma replace_triple_transparent_n : forall n a d, List.length a <= n ->
+  d <> 34%N -> d <> 92%N -> transparent (replace_triple a ++ [d]).
+Proof.
+  induction n as [| n IH]; intros a d Hn Hd Hb.
+  - destruct a; [| cbn in Hn; lia]. apply transparent_sep; assumption.
+  - destruct a as [| c r]; [apply transparent_sep; assumption |].
+    cbn [List.length] in Hn. intros y.
+    destruct (starts_triple (c :: r)) eqn:St.
+    + apply st_true in St. destruct St as [r2 E]. inversion E; subst c r. clear E. cbn [List.length] in Hn.
+      rewrite rt_triple. cbn [app].
+      rewrite raw_other by reflexivity. rewrite raw_other by reflexivity. rewrite raw_bsl.
+      rewrite (IH r2 d) by (try assumption; lia).
+      rewrite !lift_raw_app. reflexivity.
+    + rewrite (rt_other c r St).
+      destruct (N.eqb_spec c 92) as [-> | Nc].
+      * destruct r as [| e r1].
+        { cbn [replace_triple app]. rewrite raw_bsl. reflexivity. }
+        cbn [List.length] in Hn.
+        destruct (starts_triple (e :: r1)) eqn:St2.
+        -- apply st_true in St2. destruct St2 as [r3 E]. inversion E; subst e r1. clear E. cbn [List.length] in Hn.
+           rewrite rt_triple. cbn [app].
+           rewrite raw_bsl. rewrite raw_other by reflexivity. rewrite raw_bsl.
+           rewrite (IH r3 d) by (try assumption; lia).
+           rewrite !lift_raw_app. reflexivity.
+        -- rewrite (rt_other e r1 St2). cbn [app]. rewrite raw_bsl.
+           rewrite (IH r1 d) by (try assumption; lia).
+           rewrite !lift_raw_app. reflexivity.
+      * cbn [app]. rewrite raw_other; [| apply neqb; exact Nc | apply st_replace; assumption].
+        rewrite (IH r d) by (try assumption; lia).
+        rewrite !lift_raw_app. reflexivity.
+Qed.
+
+(* T3 (the statement T4 needs).  Whatever the command line is, the raw-string scanner started in its normal state at
+   the beginning of  replace_triple a ++ [d]  (d a character other than the quote and the backslash, here the newline)
+   runs through it without ending the literal and arrives behind d in its normal state. *)
+Theorem replace_triple_transparent : forall a d, d <> 34%N -> d <> 92%N -> transparent (replace_triple a ++ [d]).
+Proof. intros a d. apply (replace_triple_transparent_n (List.length a)). apply le_n. Qed.
+
+Corollary replace_triple_never_ends : forall a, py_raw_triple_end (replace_triple a ++ [10%N]) = None.
+Proof.
+  intros a. rewrite <- (app_nil_r (replace_triple a ++ [10%N])).
+  rewrite (replace_triple_transparent a 10%N) by discriminate. reflexivity.
+Qed.
+
+Corollary replace_triple_then_close : forall a rest,
+  py_raw_triple_end (replace_triple a ++ [10%N] ++ TRIPLE ++ rest) = Some (replace_triple a ++ [10%N], rest).
+Proof.
+  intros a rest. rewrite app_assoc.
+  rewrite (replace_triple_transparent a 10%N) by discriminate.
+  unfold TRIPLE. cbn [app]. rewrite raw_end. cbn [lift_raw]. rewrite app_nil_r. reflexivity.
+Qed.
+
+(* ================================================================================================================ *)
+(* T4: the header is exactly one raw string literal                                                                 *)
+(* ================================================================================================================ *)
+Lemma header_body_transparent : forall line cmd,
+  has_triple line = false -> transparent (cmd ++ [10%N]) -> transparent (header_body_of line cmd).
+Proof.
+  intros line cmd Hl Hc. unfold header_body_of, COMMAND_PREFIX.
+  change ([10%N] ++ line ++ [10%N] ++ [99; 111; 109; 109; 97; 110; 100; 58; 32]%N ++ cmd ++ [10%N])
+    with ([10%N] ++ line ++ [10%N] ++ ([99; 111; 109; 109; 97; 110; 100; 58]%N ++ [32%N]) ++ cmd ++ [10%N]).
+  apply transparent_app; [apply transparent_sep; discriminate |].
+  rewrite app_assoc. apply transparent_app; [apply no_triple_transparent; [exact Hl | discriminate | discriminate] |].
+  apply transparent_app; [apply no_triple_transparent; [reflexivity | discriminate | discriminate] |].
+  exact Hc.
+Qed.
+
+Lemma header_text_of_split : forall line cmd rest,
+  header_text_of line cmd ++ rest = [114; 34; 34; 34]%N ++ header_body_of line cmd ++ TRIPLE ++ [10%N] ++ rest.
+Proof. intros. unfold header_text_of, TRIPLE. cbn [app]. rewrite <- !app_assoc. reflexivity. Qed.
+
+(* hypothesis on the first line: it does not contain three consecutive double quotes.  (It may end with a backslash:
+   that backslash "escapes" the newline after it, which is harmless.)  No hypothesis on argv. *)
+Theorem header_is_one_string : forall line argv rest,
+  has_triple line = false ->
+  exists body,
+    firstn 4 (header_text line argv ++ rest) = [114; 34; 34; 34]%N /\
+    py_raw_triple_end (skipn 4 (header_text line argv ++ rest)) = Some (body, [10%N] ++ rest) /\
+    body = [10%N] ++ line ++ [10%N] ++ COMMAND_PREFIX ++ replace_triple argv ++ [10%N].
+Proof.
+  intros line argv rest Hl. exists (header_body line argv).
+  unfold header_text. rewrite header_text_of_split.
+  split; [reflexivity |]. split; [| reflexivity].
+  change (skipn 4 ([114; 34; 34; 34]%N ++ header_body_of line (replace_triple argv) ++ TRIPLE ++ [10%N] ++ rest))
+    with (header_body_of line (replace_triple argv) ++ TRIPLE ++ [10%N] ++ rest).
+  rewrite (header_body_transparent line (replace_triple argv) Hl)
+    by (apply replace_triple_transparent; discriminate).
+  unfold TRIPLE. cbn [app]. rewrite raw_end. cbn [lift_raw]. rewrite app_nil_r. reflexivity.
+Qed.
+
+(* the hypothesis on line is decidable and holds for the actual first line *)
+Module HeaderLine.
+  Import Coq.Strings.String.
+  Example header_line_ok :
+    has_triple (s_ "generated by json2python-models v0.3.0 at Thu Oct  1 12:00:00 2026"%string) = false.
+  Proof. vm_compute. reflexivity. Qed.
+  Example command_prefix_text : COMMAND_PREFIX = s_ "command: "%string.
+  Proof. vm_compute. reflexivity. Qed.
+End HeaderLine.
+
+(* ================================================================================================================ *)
+(* T5: without the repair the header is broken                                                                      *)
+(* ================================================================================================================ *)
+(* argv = three double quotes: the literal ends right after "command: "; the text that follows it in the module is
+   newline, three quotes, newline — an unterminated triple-quoted string (SyntaxError) *)
+Example header_unrepaired_refuted :
+  py_raw_triple_end (skipn 4 (header_text_unrepaired [103%N] [34; 34; 34]%N ++ [120; 61; 49; 10]%N))
+  = Some ([10; 103; 10]%N ++ COMMAND_PREFIX, [10; 34; 34; 34; 10]%N ++ [120; 61; 49; 10]%N)
+  /\ py_raw_triple_end ([34; 34; 34; 10]%N ++ [120; 61; 49; 10]%N) <> None
+  /\ py_raw_triple_end (skipn 3 ([34; 34; 34; 10]%N ++ [120; 61; 49; 10]%N)) = None.
+Proof. vm_compute. repeat split. discriminate. Qed.
+
+(* in general *)
+Theorem header_unrepaired_ends_early : forall line rest,
+  has_triple line = false ->
+  py_raw_triple_end (skipn 4 (header_text_unrepaired line [34; 34; 34]%N ++ rest))
+  = Some ([10%N] ++ line ++ [10%N] ++ COMMAND_PREFIX, [10; 34; 34; 34; 10]%N ++ rest).
+Proof.
+  intros line rest Hl. unfold header_text_unrepaired. rewrite header_text_of_split.
+  change (skipn 4 ([114; 34; 34; 34]%N ++ header_body_of line [34; 34; 34]%N ++ TRIPLE ++ [10%N] ++ rest))
+    with (header_body_of line [34; 34; 34]%N ++ TRIPLE ++ [10%N] ++ rest).
+  unfold header_body_of, COMMAND_PREFIX.
+  assert (T : transparent ([10%N] ++ line ++ [10%N] ++ [99; 111; 109; 109; 97; 110; 100; 58; 32]%N)).
+  { change ([10%N] ++ line ++ [10%N] ++ [99; 111; 109; 109; 97; 110; 100; 58; 32]%N)
+      with ([10%N] ++ line ++ [10%N] ++ ([99; 111; 109; 109; 97; 110; 100; 58]%N ++ [32%N])).
+    apply transparent_app; [apply transparent_sep; discriminate |].
+    rewrite app_assoc. apply transparent_app; apply no_triple_transparent; try discriminate; [exact Hl | reflexivity]. }
+  replace (([10%N] ++ line ++ [10%N] ++ [99; 111; 109; 109; 97; 110; 100; 58; 32]%N ++ [34; 34; 34]%N ++ [10%N]) ++
+           TRIPLE ++ [10%N] ++ rest)
+    with (([10%N] ++ line ++ [10%N] ++ [99; 111; 109; 109; 97; 110; 100; 58; 32]%N) ++
+          [34; 34; 34]%N ++ [10%N] ++ TRIPLE ++ [10%N] ++ rest)
+    by (rewrite <- !app_assoc; reflexivity).
+  rewrite T. unfold TRIPLE. cbn [app]. rewrite raw_end. cbn [lift_raw]. rewrite app_nil_r. reflexivity.
+Qed.
+
+Print Assumptions unescape_json_raw.
+Print Assumptions unescape_json_raw_all.
+Print Assumptions unescape_repr.
+Print Assumptions replace_triple_transparent.
+Print Assumptions replace_triple_never_ends.
+Print Assumptions replace_triple_then_close.
+Print Assumptions header_is_one_string.
+Print Assumptions header_unrepaired_refuted.
+Print Assumptions header_unrepaired_ends_early.
+
+(* NOT PROVED: nothing — T1..T5 are all proved above.
+   Modelling limits (not proof gaps): \N{NAME} escapes are rejected by py_unescape (never emitted); texts are taken
+   after CPython's universal-newline translation; triple-quoted, prefixed and implicitly concatenated literals are
+   outside py_unescape (it answers None for them). *)
